@@ -22,9 +22,12 @@ type hookEv struct {
 }
 
 var (
-	hookMu     sync.Mutex
-	hookLog    []hookEv
-	hookFailAt string // "<Hook>/<Name>" that returns an error ("" = none)
+	hookMu       sync.Mutex
+	hookLog      []hookEv
+	hookFailAt   string            // "<Hook>/<Name>" that returns an error ("" = none)
+	hookFailErr  string            // which error VALUE it returns (c13_errvals.go; "" = errHook)
+	hookFailMore map[string]string // further failing invocations: "<Hook>/<Name>" -> error kind
+	hookReturned []error           // the error objects the failing hooks returned
 )
 
 var errHook = errors.New("verif: hook failed")
@@ -34,8 +37,16 @@ func logHook(hook string, name string, tx *gorm.DB) error {
 	defer hookMu.Unlock()
 	_, isTx := tx.Statement.ConnPool.(gorm.TxCommitter)
 	hookLog = append(hookLog, hookEv{hook, name, fmt.Sprintf("%p", tx.Statement.ConnPool), isTx})
-	if hookFailAt == hook+"/"+name {
-		return errHook
+	kind, fail := hookFailErr, hookFailAt == hook+"/"+name
+	if k2, ok := hookFailMore[hook+"/"+name]; ok && !fail {
+		kind, fail = k2, true
+	}
+	if fail {
+		hookMu.Unlock()
+		err := c13MakeErr(kind, tx, hook) // may issue statements through tx
+		hookMu.Lock()
+		hookReturned = append(hookReturned, err)
+		return err
 	}
 	return nil
 }
@@ -73,6 +84,10 @@ type c13Case struct {
 	N      int    `json:"n"`
 	FailAt string `json:"fail_at,omitempty"`
 	Skip   string `json:"skip,omitempty"` // "", "session", "updatecolumn"
+	// error VALUE the failing hook returns (c13ErrKinds; "" = a plain errors.New value); a second failing invocation
+	FailErr  string `json:"fail_err,omitempty"`
+	FailAt2  string `json:"fail_at2,omitempty"`
+	FailErr2 string `json:"fail_err2,omitempty"`
 }
 
 type c13Obs struct {
@@ -81,6 +96,10 @@ type c13Obs struct {
 	Pools  int             `json:"distinct_pools"`
 	AllTx  bool            `json:"all_in_tx"`
 	Stored []string        `json:"stored"`
+	// the returned error errors.Is-matches (or textually contains) every error a failing hook returned
+	ErrReturned bool     `json:"err_returned"`
+	TxEnds      []string `json:"tx_ends,omitempty"` // commit / rollback events at the driver
+	resErr      error
 }
 
 func c13Open() (*gorm.DB, *Recorder) {
@@ -88,6 +107,7 @@ func c13Open() (*gorm.DB, *Recorder) {
 	if err := db.AutoMigrate(&HItem{}); err != nil {
 		panic(err)
 	}
+	c13EnsureAux(db)
 	return db, rec
 }
 
@@ -108,12 +128,17 @@ func c13Dump(db *gorm.DB, rec *Recorder) []string {
 		rows.Scan(&id, &a, &b, &c)
 		out = append(out, fmt.Sprintf("%d|%s|%s|%s", id, a, b, c))
 	}
-	return out
+	return append(out, c13AuxDump(db)...)
 }
 
 // c13Run executes one case on a fresh database and returns the observation.
 func c13Run(c c13Case) (obs c13Obs, before, after []string, stmtSent bool) {
 	db, rec := c13Open()
+	defer func() {
+		if sqlDB, err := db.DB(); err == nil {
+			sqlDB.Close()
+		}
+	}()
 	mk := func(i int) HItem { return HItem{Name: fmt.Sprint("r", i)} }
 	// pre-existing rows for update/delete/query
 	if c.Op != "create" {
@@ -128,7 +153,10 @@ func c13Run(c c13Case) (obs c13Obs, before, after []string, stmtSent bool) {
 	before = c13Dump(db, rec)
 	hookMu.Lock()
 	hookLog = nil
-	hookFailAt = c.FailAt
+	hookFailAt, hookFailErr, hookFailMore, hookReturned = c.FailAt, c.FailErr, nil, nil
+	if c.FailAt2 != "" {
+		hookFailMore = map[string]string{c.FailAt2: c.FailErr2}
+	}
 	hookMu.Unlock()
 	rec.Reset()
 	h := db
@@ -176,8 +204,21 @@ func c13Run(c c13Case) (obs c13Obs, before, after []string, stmtSent bool) {
 	}
 	hookMu.Lock()
 	log := append([]hookEv(nil), hookLog...)
-	hookFailAt = ""
+	returned := hookReturned
+	hookFailAt, hookFailErr, hookFailMore, hookReturned = "", "", nil, nil
 	hookMu.Unlock()
+	obs.resErr = res.Error
+	obs.ErrReturned = res.Error != nil && len(returned) > 0
+	for _, e := range returned {
+		if !c13ErrCarries(res.Error, e) {
+			obs.ErrReturned = false
+		}
+	}
+	for _, e := range rec.Snapshot() {
+		if e.Kind == "commit" || e.Kind == "rollback" {
+			obs.TxEnds = append(obs.TxEnds, e.Kind)
+		}
+	}
 	pools := map[string]bool{}
 	obs.AllTx = true
 	// merge hook log with the statement position: statement events come from the recorder; to order them
@@ -194,7 +235,7 @@ func c13Run(c c13Case) (obs c13Obs, before, after []string, stmtSent bool) {
 	}
 	obs.Pools = len(pools)
 	for _, e := range rec.Snapshot() {
-		if !isTxEvent(e) {
+		if !isTxEvent(e) && !c13IsAuxSQL(e.SQL) {
 			stmtSent = true
 		}
 	}
@@ -296,6 +337,9 @@ func c13Oracle(c c13Case, obs c13Obs, before, after []string, stmtSent bool) str
 		// values set by before-hooks are the values stored
 		if c.Op == "create" {
 			for _, row := range after {
+				if strings.HasPrefix(row, "aux:") {
+					continue
+				}
 				p := strings.Split(row, "|")
 				if p[2] != "direct:"+p[1] || p[3] != "setcolumn:"+p[1] {
 					return "value set in BeforeCreate is not the value stored: " + row
@@ -311,7 +355,7 @@ func c13Oracle(c c13Case, obs c13Obs, before, after []string, stmtSent bool) str
 		return ""
 	}
 	// failure injected at FailAt = hook/name
-	if obs.Err == "" || !strings.Contains(obs.Err, errHook.Error()) {
+	if obs.Err == "" || !obs.ErrReturned {
 		return "hook error not returned: " + obs.Err
 	}
 	fh := strings.Split(c.FailAt, "/")[0]
@@ -419,6 +463,9 @@ func init() {
 				r.Violate(Violation{Kind: "e2e", Suite: "hooks", Input: c, Observed: obs, Expected: v})
 			}
 		}
+		// error VALUES returned by hooks (c13_errvals.go), hook detection by method set (c13_subsets.go)
+		c13ErrvalSuite(r, rng, tier)
+		c13sSuite(r, rng, tier)
 		// compound finishers, associations, contexts, transaction identity (c13_world.go, c13_compound.go)
 		r.Exhaustive = false
 		c13xSuite(r, rng, tier)
